@@ -8,6 +8,7 @@ results, the `scale` flags, the guards of the two scaling loops, the finalise-on
 -/
 import StarsimModel.Lemmas.Results
 import StarsimModel.Lemmas.SimCore
+import StarsimModel.Lemmas.SimCoreLife
 
 namespace StarsimModel.C15
 open StarsimModel.Results
@@ -484,6 +485,31 @@ theorem C15_composed_row_is_count (s : SimCore.Sim) (ev : SimCore.Events) :
       r.newInf = SimCore.countActive (fun a => SimCore.isNow a.tm.ti_infected s.ti) (SimCore.midPop s ev) := by
   obtain ⟨r, h1, _, h3, h4, h5, h6, h7, _, h9, _⟩ := SimCore.simStep_rows s ev
   exact ⟨r, h1, h3, h4, h5, h6, h7, h9⟩
+
+/-- **Prevalence lies in [0,1] in every row of every run** of the composed model: it is recorded as infected / alive with
+    `infected ≤ alive` (indeed `S + I + R = alive`), from any population satisfying the partition invariant, under any events,
+    unless an inadmissible `set_prognoses` call is reported. -/
+theorem C15_composed_prevalence_unit (s : SimCore.Sim) (evs : List SimCore.Events) (hinv : SimCore.Inv s)
+    (h0 : s.rows = []) (hb : (SimCore.run s evs).bad = false) :
+    ∀ r ∈ (SimCore.run s evs).rows, r.prevNum ≤ r.prevDen ∧ r.prevNum = r.nI ∧ r.prevDen = r.nAlive := by
+  intro r hr
+  obtain ⟨h1, h2, h3⟩ := SimCore.run_rows_balanced evs s hinv (by rw [h0]; intro r hr; cases hr) hb r hr
+  exact ⟨by rw [h2, h3]; omega, h2, h3⟩
+
+/-- **Birth and death flows match the agents actually created or removed, over whole runs**: (active at the end) + (sum of the
+    recorded `new_deaths`) = (active at the start) + (agents created), one row per step. -/
+theorem C15_composed_flows_match (s : SimCore.Sim) (evs : List SimCore.Events) (h : ∀ a ∈ s.pop, SimCore.Clean a) :
+    ∃ rs : List SimCore.Row, (SimCore.run s evs).rows = s.rows ++ rs ∧ rs.length = evs.length ∧
+      SimCore.nPresent (SimCore.run s evs).pop + SimCore.sumNat (rs.map (·.newDeaths)) =
+        SimCore.nPresent s.pop + SimCore.sumNat (evs.map (·.births)) :=
+  SimCore.run_conservation evs s h
+
+/-- kernel-evaluated: two susceptible agents, uid 0 infected in step 0 for 1 step; prevalence 1/2 then 0/2 -/
+example :
+    let s : SimCore.Sim := ⟨0, [SimCore.newborn, SimCore.newborn], [], false⟩
+    let r := SimCore.run s [⟨0, [], [[⟨0, 1, false⟩]]⟩, ⟨0, [], []⟩]
+    r.bad = false ∧ r.rows.map (fun x => (x.prevNum, x.prevDen)) = [(1, 2), (0, 2)] := by
+  decide +kernel
 end composed
 
 end StarsimModel.C15
